@@ -92,7 +92,7 @@ PROPS = {
     'C03': {
         'verus': [U_SCOPE, U_UPER, U_PER_DEP, U_BITS_DEP],
         'glue': GLUE_ZOO,
-        'glue_filter': r'::(read_seq|write_seq|read|write)$|verif_g13_consts_',
+        'glue_filter': r'::(read_seq|write_seq|read|write)$|verif_g13_consts_(?!c_)',
         'search_groups': ['seq'],
         'bounded_search': [('seq', 'all SEQUENCE shapes with n <= 4 components x kinds {mandatory, OPTIONAL, DEFAULT} x marker position x all presence patterns through the real Writer/Reader API against an X.691 reference encoding; cross-version pairs with up to 5 components')],
         'assumptions': [
@@ -115,7 +115,7 @@ PROPS = {
     'C05': {
         'verus': [U_SCOPE, U_UPER, U_PER_DEP, U_BITS_DEP],
         'glue': GLUE_ZOO,
-        'glue_filter': r'::(read_seq|write_seq|read|write)$|verif_g13_consts_',
+        'glue_filter': r'::(read_seq|write_seq|read|write)$|verif_g13_consts_(?!c_)',
         'search_groups': ['seq'],
         'bounded_search': [('seq', 'all SEQUENCE shapes with n <= 4 components x kinds {mandatory, OPTIONAL, DEFAULT} x marker position x all presence patterns through the real Writer/Reader API against an X.691 reference encoding; cross-version pairs with up to 5 components')],
         'assumptions': [
